@@ -415,6 +415,9 @@ impl Exec {
                 };
                 if let Some(e) = self.expect.take() {
                     *self.stats.entry("expect.checked".to_owned()).or_insert(0) += 1;
+                    if e.starts_with("match") {
+                        *self.stats.entry("nt.expectmatch".to_owned()).or_insert(0) += 1;
+                    }
                     if e != out {
                         self.oracle.push(format!("O {idx} C17 expected [{e}] got [{out}]"));
                     }
